@@ -1,5 +1,12 @@
 """C15 — emergency pause is bounded."""
 ID = "C15"
+MANIFEST = {
+    "text": ("Kernel-checked theorems over the pause state machine for every operation sequence of any length "
+             "(induction + invariant), tied to the real PanicState methods by differential execution on generated "
+             "and boundary-directed schedules; property oracles evaluated on the implementation trace."),
+    "design_ref": "DESIGN.md §7 C15",
+    "technique": "Coq proof by invariant over op lists + model/implementation correspondence (extracted model vs real PanicState)",
+}
 THEOREMS = [
     "C15_pause_extends_at_most_30min", "C15_other_ops_never_extend", "C15_horizon_60min",
     "C15_blocked_iff_before_paused_until", "C15_daily_limit", "C15_expired_pause_does_not_block",
